@@ -415,7 +415,10 @@ class DagFile(object):
         if not self.builds() or self.own_fails():
             return 'FAIL'
         if any(d.own_fails() for d in self.closure()):
-            return None
+            # "every assert statement evaluated in it": the assert statements of a file this one imports ARE evaluated while this file
+            # is validated (that is the reading ucg's own fix a5bfd6a states: "the assertions of a file this one imports count for this
+            # file too"), so a false one makes the importer FAIL - alone and in every batch shape.
+            return 'FAIL'
         return 'PASS'
 
     def desc_counts(self):
@@ -682,6 +685,13 @@ def fixed_projects():
     y = DagFile('sub/deep/y_test.ucg', 'let a = import "../x_test.ucg";\nlet b = import "../../other/x_test.ucg";\nassert {ok = a.v == 1, desc = "q4-y-a0-holds"};\nassert {ok = b.v == 2, desc = "q4-y-a1-holds"};\n',
                 [('q4-y-a0-holds', True, False), ('q4-y-a1-holds', True, False)], deps=[xs, xo])
     out.append(Project(4, [xs, xo, y]))
+    # 5: a diamond over a shared file with assertions, every import spelled in a way that is not already normal (`./x`, `d/../x`)
+    sh = DagFile('shared_test.ucg', 'let v = 3;\nassert {ok = v == 3, desc = "q5-shared-a0-holds"};\n', [('q5-shared-a0-holds', True, False)], export=3)
+    l = DagFile('sub/left_test.ucg', 'let s = import "./../shared_test.ucg";\nassert {ok = s.v == 3, desc = "q5-left-a0-holds"};\n', [('q5-left-a0-holds', True, False)], deps=[sh])
+    r = DagFile('right_test.ucg', 'let s = import "./shared_test.ucg";\nassert {ok = s.v == 3, desc = "q5-right-a0-holds"};\n', [('q5-right-a0-holds', True, False)], deps=[sh])
+    top = DagFile('top_test.ucg', 'let a = import "sub/../sub/left_test.ucg";\nlet b = import "./right_test.ucg";\nlet c = import "./shared_test.ucg";\nassert {ok = a.s.v == b.s.v, desc = "q5-top-a0-holds"};\n',
+                  [('q5-top-a0-holds', True, False)], deps=[l, r, sh])
+    out.append(Project(5, [sh, l, r, top]))
     return out
 
 
